@@ -392,7 +392,7 @@ TRUSTED = [
     "pyvc's encoding of the Python subset; z3/cvc5 (sequence and regular-expression theories; every `sat` model is re-checked)",
     "the regex engine implements the textbook semantics of the shapes used by the token constants (classes, literals, alternation, greedy repeats, look-ahead)",
     "replay/metaspec.py's reader of meta.pest and its denotation function are the executable reading of the property statement (independent of the front end; cross-checked against it on meta.pest itself)",
-    "scanner-producible token sequences satisfy two adjacency facts used as precondition of the parser proof (no CHOICE_OP directly after an infix or prefix operator, no TAG directly after a prefix operator) and a MODIFIER token carries one of the four modifier symbols (RE_MODIFIER, lex.modifier.language): validated by the differential, not proved for the scanner's state functions",
+    "the three facts about scanner output that the parser proof uses (no CHOICE_OP directly after an infix or prefix operator, no TAG directly after a prefix operator, a MODIFIER token's value is what RE_MODIFIER matched) are proved of the scanner's real state functions with a ghost for the kind of the last emitted token (clauses adj.*); that regex.match returns a member of the pattern's language is the regex oracle",
     "the token-layer contract pins the representation the code builds (n-ary flattened Sequence/Choice, tag on the primary or outermost prefix node, PEEK slice bounds as the token texts); dict semantics of the rule table (a later rule of the same name replaces the earlier) is Python's",
     "unescape_string is used through C12's contract (decoded value or PestGrammarSyntaxError); int() of a NUMBER token is str.to_int (digits only, by lex.number.language)",
 ]
@@ -412,12 +412,13 @@ BOUNDED = [
 
 def specs(tier):
     out: list[Any] = [MetaLoaded(), Lexical()]
-    try:
-        from . import c10_parser
+    from . import c10_parser, c11
 
-        out += c10_parser.specs(tier)
-    except ImportError:
-        pass
+    out += c10_parser.specs(tier)
+    # what the token-layer proof assumes of scanner output, proved of the scanner's real state functions (ghost: kind of
+    # the last emitted token): no CHOICE_OP directly after an infix/prefix operator, no TAG directly after a prefix
+    # operator, a MODIFIER token's value comes from RE_MODIFIER
+    out += [c11.ScannerAdjacency(m) for m in c11.SCANNER_METHODS if m not in ("emit", "next", "peek", "scan", "scan_until", "skip", "error")]
     return out
 
 
